@@ -4,8 +4,9 @@ its reassembly state) and of the UDPTL datagram parse of `UdtlTransport::recv` +
 (src/transports/udptl.rs:118-167, 236-262 on a fresh `UdtlReceiveBuffer`).
 -/
 import RtcModel.Base.C07Cursor
+import RtcModel.Generated.Consts
 namespace RtcModel.C07.Media
-open RtcModel.C07
+open RtcModel.C07 RtcModel.Generated
 
 structure H264St where
   fua : Array UInt8 := #[]
@@ -93,6 +94,7 @@ def udptlRedBody (buf : Array UInt8) (s : Nat × Nat) : Cur ((Nat × Nat) ⊕ Na
 /-- datagram parse of `UdtlTransport::recv` + `try_deliver` on a fresh buffer (`expected_seq = 1`):
 `[]` = `Ok(None)`, else `[len, fold(primary)]` -/
 def udptlRecv (buf : Array UInt8) : Cur (List Nat) := do
+  alloc c07UdptlMaxDatagram                               -- `vec![0u8; self.config.max_datagram]`
   let n := buf.size
   if n < 2 then pure [] else
   let seq ← be16 buf 0
